@@ -38,6 +38,8 @@ class Trace:
     def __init__(self) -> None:
         self.stack: list = []
         self.reads: list = []  # (template name, Path object, tuple(stack), context)
+        self.direct: list = []  # (template name, root name, tuple(stack), origin): scope reads that no Path expression made
+        self.in_path = 0
         self.tags: dict = {}
         self.filters: dict = {}
         self.partial_entries: dict = {}  # partial name -> set of binding signatures at entry
@@ -92,15 +94,46 @@ def _install() -> None:
 
     def evaluate(self, context):
         tr = _ACTIVE["trace"]
-        if tr is not None:
-            tr.reads.append((context.template.name, self, tuple(tr.stack), context, _origin(context, self.path[0])))
-        return orig_eval(self, context)
+        if tr is None:
+            return orig_eval(self, context)
+        tr.reads.append((context.template.name, self, tuple(tr.stack), context, _origin(context, self.path[0])))
+        tr.in_path += 1
+        try:
+            return orig_eval(self, context)
+        finally:
+            tr.in_path -= 1
 
     async def evaluate_async(self, context):
         tr = _ACTIVE["trace"]
-        if tr is not None:
-            tr.reads.append((context.template.name, self, tuple(tr.stack), context, _origin(context, self.path[0])))
-        return await orig_eval_async(self, context)
+        if tr is None:
+            return await orig_eval_async(self, context)
+        tr.reads.append((context.template.name, self, tuple(tr.stack), context, _origin(context, self.path[0])))
+        tr.in_path += 1
+        try:
+            return await orig_eval_async(self, context)
+        finally:
+            tr.in_path -= 1
+
+    orig_get, orig_get_async, orig_resolve = RenderContext.get, RenderContext.get_async, RenderContext.resolve
+
+    def note_direct(context, root) -> None:
+        tr = _ACTIVE["trace"]
+        if tr is not None and not tr.in_path and isinstance(root, str):
+            tr.direct.append((context.template.name, root, tuple(tr.stack), _origin(context, root)))
+
+    def get(self, path, **kw):
+        note_direct(self, path[0] if path else None)
+        return orig_get(self, path, **kw)
+
+    async def get_async(self, path, **kw):
+        note_direct(self, path[0] if path else None)
+        return await orig_get_async(self, path, **kw)
+
+    def resolve(self, name, **kw):
+        note_direct(self, name)
+        return orig_resolve(self, name, **kw)
+
+    RenderContext.get, RenderContext.get_async, RenderContext.resolve = get, get_async, resolve
 
     def filter_(self, name, token):
         tr = _ACTIVE["trace"]
@@ -200,6 +233,7 @@ def bindings_of(node) -> tuple[set, bool, object]:
     return names, False, None
 
 
+WORD_RE = re.compile(r"[A-Za-z_][A-Za-z0-9_]*")
 ASSIGN_RE = re.compile(r"(?<!\w)(?:assign|capture|increment|decrement)[ \t]+([^\s=%|]+)")
 
 
@@ -235,6 +269,11 @@ def evaluate(case) -> Verdict:
     an = a[1]
     data = dict(DATA)
     data.update(case.get("data") or {})
+    # every other word of the sources is a render argument too (macro, partial, group and parameter names ...): whatever
+    # name a tag or filter looks up on its own then comes from the render arguments, where the second clause sees it
+    for text in sources.values():
+        for word in WORD_RE.findall(text):
+            data.setdefault(word, "G")
     tr = Trace()
     _ACTIVE["trace"] = tr
     try:
@@ -295,6 +334,24 @@ def evaluate(case) -> Verdict:
                 f"global-missing:{where}",
                 f"{tname}: {path} read {root!r} from the render arguments (no enclosing block binds it, nothing assigns it) but "
                 f"analysis.globals has only {sorted(an.globals)}\n   sources={sources!r:.500}",
+            )
+    # scope reads made by tags or filters themselves (not through a Path expression): the second clause applies to them too
+    for tname, root, stack, origin in tr.direct:
+        if origin != "globals" or root in assigned:
+            continue
+        bound = set()
+        for node in stack[:-1]:
+            names, isolated, pname = bindings_of(node)
+            bound = (set(names) if isolated else bound | names) if pname is not None else bound | names
+        if root in bound:
+            continue
+        obligations += 1
+        if root not in an.globals:
+            who = type(stack[-1]).__name__ if stack else "?"
+            v.fail(
+                f"global-missing:direct:{who}",
+                f"{tname}: {who} read {root!r} from the render arguments without a variable expression, and analysis.globals "
+                f"has only {sorted(an.globals)}\n   sources={sources!r:.500}",
             )
     for name, (tname, idx) in tr.filters.items():
         if name not in an.filters:
